@@ -142,6 +142,9 @@ impl SimReader {
   pub fn inject(&mut self, bytes: &[u8]) {
     self.mr.handle_received_packet(&Bytes::copy_from_slice(bytes));
   }
+  pub fn guid(&self) -> GUID {
+    self.reader_guid
+  }
 
   // ---- datagram builders for the fixed ledger: value of (w, sn) is determined by (w, sn, k, pad)
   pub fn src_ts(w: u8, sn: i64) -> u64 {
